@@ -42,11 +42,15 @@ class C03(Prop):
                   "same result for every hasher and the same get_hash(); conversely identical feeds imply ==; == implies same name and labels equal up to "
                   "order; with pairwise distinct label names any permutation of the labels gives ==, cmp Equal and the same feed; every construction "
                   "path (constructor kind, with_extra_labels splits, clone/get_hash calls) yields the key (name, labels in supplied order) and get_hash "
-                  "always returns H(feed) for an arbitrary H, sequentially. The model's sort is proved to be the unique stable sort by label name. "
+                  "always returns H(feed) for an arbitrary H, sequentially. Under races (C03_get_hash_stable_under_races): for any number of threads, any lists of "
+                  "get_hash / clone-then-get_hash calls on one shared lazily hashed key and every sequentially consistent schedule of the six atomic steps "
+                  "(yield sites 301-306), every call returns the key's true hash. The model's sort is proved to be the unique stable sort by label name. "
                   "The code as found is refuted (C03_eq_iff_cmp_Eq_refuted_before_fix). Each run compares ==, cmp, the recorded Hasher call "
-                  "sequence, the `hashed` flag and get_hash() consistency/equality classes of the real Key against the model on generated key groups.")
-    level_note = ("Not covered here: the race on the first get_hash() of a shared static key (schedule replay, built separately); only the sequential memo "
-                  "state machine is modelled and proved. AHash is an uninterpreted function of the write sequence. String flavours (static/owned/Arc) "
+                  "sequence, the `hashed` flag and get_hash() consistency/equality classes of the real Key against the model on generated key groups, and replays "
+                  "generated schedules of 2-3 racing threads on the real get_hash/Clone through the yield points against the interleaving model.")
+    level_note = ("The race theorem is about sequentially consistent interleavings at the granularity of the two loads/two stores of get_hash and the two "
+                  "loads of Clone; reorderings allowed by Release/Acquire on weak-memory hardware are outside the model, and the schedule replay samples "
+                  "schedules (400 quick / 6000 thorough), it does not enumerate them. AHash is an uninterpreted function of the write sequence. String flavours (static/owned/Arc) "
                   "are not distinguished in the model (Cow delegates ==, cmp, hash to the str); that they make no difference is established by the "
                   "correspondence runs, not by a theorem. slice::sort_by_key is trusted to be a stable sort (the model's sort is proved to be the unique "
                   "stable sorted permutation, so any stable algorithm computes it). Observation, not a violation of the stated property: with three or more "
